@@ -91,6 +91,12 @@ func c24Classify(argv []string, interp, bash c24Obs) (class string, note string)
 	if !same(none, bash) {
 		return "", "reference model disagrees with bash"
 	}
+	// a single quirk is the smallest possible explanation
+	for i, n := range c24QuirkNames {
+		if same(c24Ref(argv, c24Q(1)<<uint(i)), interp) {
+			return n, n
+		}
+	}
 	all := c24Ref(argv, c24qAll)
 	var sens []int
 	for i := range c24QuirkNames {
@@ -99,21 +105,57 @@ func c24Classify(argv []string, interp, bash c24Obs) (class string, note string)
 			sens = append(sens, i)
 		}
 	}
-	if len(sens) > 10 {
-		return "", "too many quirks apply"
-	}
-	best, bestN := c24Q(0), 99
-	for m := 1; m < 1<<uint(len(sens)); m++ {
-		var set c24Q
-		n := 0
+	subsetOf := func(sens []int, m int) (set c24Q, n int) {
 		for k, i := range sens {
 			if m&(1<<uint(k)) != 0 {
 				set |= c24Q(1) << uint(i)
 				n++
 			}
 		}
-		if n < bestN && same(c24Ref(argv, set), interp) {
-			best, bestN = set, n
+		return
+	}
+	search := func(sens []int) (best c24Q) {
+		bestN := 99
+		for m := 1; m < 1<<uint(len(sens)); m++ {
+			set, n := subsetOf(sens, m)
+			if n < bestN && same(c24Ref(argv, set), interp) {
+				best, bestN = set, n
+			}
+		}
+		return best
+	}
+	if len(sens) > 10 {
+		return "", "too many quirks apply"
+	}
+	best := search(sens)
+	if best == 0 {
+		// A quirk can be masked in both directions (for example everything
+		// after a \c is invisible unless \c itself is ignored): close the
+		// set under "toggling it changes the result on top of some subset of
+		// the quirks found so far" and search again.
+		for grew := true; grew && len(sens) <= 8; {
+			grew = false
+			for i := range c24QuirkNames {
+				q := c24Q(1) << uint(i)
+				known := false
+				for _, k := range sens {
+					known = known || k == i
+				}
+				if known {
+					continue
+				}
+				for m := 0; m < 1<<uint(len(sens)); m++ {
+					set, _ := subsetOf(sens, m)
+					if !eq(c24Ref(argv, set|q), c24Ref(argv, set)) {
+						sens = append(sens, i)
+						grew = true
+						break
+					}
+				}
+			}
+		}
+		if len(sens) <= 10 {
+			best = search(sens)
 		}
 	}
 	if best == 0 {
